@@ -153,7 +153,7 @@ def _enum(tier, **_):
                      (AXML, "ARSCParser.ResourceResolver.put_ate_value"), (AXML, "ARSCParser.ResourceResolver.put_item_value")],
       level="bounded",
       note="every reference graph over n <= 3 (thorough: 4) resource ids, one entry per id from {value, reference to any id, complex "
-           "entry with a reference item and a value} (two entries per id for n <= 2): chains and cycles of length 1..n")
+           "entry with a reference item and a value} (two entries per id for n <= 2): chains and cycles of length 1..n", terminates=True)
 def small_reference_graphs(U):
     m = U.mod(AXML)
     g = U.given or {"n": 2, "combo": [2, 1]}
@@ -170,7 +170,7 @@ small_reference_graphs.enumerate_inputs = lambda tier, **p: _enum(tier)
 
 
 @unit("C29", covers=[(AXML, "ARSCParser.ResourceResolver.put_item_value")], level="bounded", samples=150,
-      note="seeded random reference graphs over 5..12 ids with 1..3 entries each")
+      note="seeded random reference graphs over 5..12 ids with 1..3 entries each", terminates=True)
 def random_reference_graphs(U):
     m = U.mod(AXML)
     seed = U.int("seed", 0, 1 << 30)
